@@ -171,6 +171,21 @@ def _with_pairs(fn_node, defs):
             for t, v in zip(n.targets[0].elts, n.value.elts):
                 if isinstance(t, ast.Name) and stores.get(t.id) == 1 and t.id not in params and t.id not in out:
                     out[t.id] = v
+    # the result variable of an expanded helper with ONE unconditional return: `_ret = None` ... `_ret = <value>` in the same block
+    for holder in ast.walk(fn_node):
+        for fld in ("body", "orelse", "finalbody"):
+            blk = getattr(holder, fld, None)
+            if not (isinstance(blk, list) and blk and isinstance(blk[0], ast.stmt)):
+                continue
+            init = {}
+            for st in blk:
+                if isinstance(st, ast.Assign) and len(st.targets) == 1 and isinstance(st.targets[0], ast.Name):
+                    nm = st.targets[0].id
+                    if nm.startswith("_ret__i") and stores.get(nm) == 2 and nm not in out:
+                        if nm not in init and isinstance(st.value, ast.Constant) and st.value.value is None:
+                            init[nm] = st
+                        elif nm in init:
+                            out[nm] = st.value
     return out
 
 
